@@ -19,6 +19,7 @@ pub mod c07;
 pub mod c08;
 pub mod c09;
 pub mod c09net;
+pub mod c09num;
 pub mod c10;
 pub mod c10real;
 pub mod tunnelreq;
